@@ -43,7 +43,7 @@ enum Op {
 }
 
 /// (table, row as text) for every row of every table, optionally only rows mentioning `tower`.
-fn dump(path: &Path) -> Vec<(String, Vec<String>)> {
+pub fn dump(path: &Path) -> Vec<(String, Vec<String>)> {
     let c = Connection::open_with_flags(path, OpenFlags::SQLITE_OPEN_READ_ONLY).unwrap();
     let mut out = Vec::new();
     for t in ["towers", "appointments", "pending_appointments", "invalid_appointments", "registration_receipts", "appointment_receipts", "misbehaving_proofs"] {
@@ -112,7 +112,7 @@ pub fn run(seed: u64, shard: u64, sequences: u64, rep: &mut Report) {
                     5 if !m.invalid.contains(&lv) && !m.pending.contains(&lv) && !m.receipts.contains_key(&lv) => Op::Invalid(t, l),
                     6 | 7 if m.pending.contains(&lv) && !m.receipts.contains_key(&lv) => Op::PendingToAccepted(t, l),
                     8 if m.pending.contains(&lv) && !m.invalid.contains(&lv) => Op::PendingToInvalid(t, l),
-                    9 if !m.misbehaving && !m.receipts.contains_key(&lv) => Op::Misbehave(t, l),
+                    9 if !m.misbehaving && !m.receipts.contains_key(&lv) && !m.pending.contains(&lv) && !m.invalid.contains(&lv) => Op::Misbehave(t, l),
                     10 => Op::Abandon(t),
                     11 => Op::SetStatus(t, rng.below(3) as u8),
                     _ => Op::Register(t),
